@@ -29,6 +29,7 @@ def run(ctx):
         from .. import named
         named.monitor(ctx, ['rdd2:attitude_control', 'rdd2:attitude_rate_control', 'rdd2:input_acro', 'rdd2:input_velocity', 'rdd2_loglinear:so3_attitude_control', 'rdd2_loglinear:se23_attitude_control', 'rdd2_loglinear:se23_error'], ctx.rng("named"))
         ctx.require("call_by_argument_name", "(by-name calls never evaluated)")
+        named.derivation_history(ctx, ['rdd2', 'rdd2_loglinear'], ctx.rng("named2"))
     units = ["rate_pid", "velocity_input", "position_loop", "sticks", "error_laws"]
     for i, u in enumerate(units):
         if i % len(units) != ctx.shard % len(units):
